@@ -276,6 +276,13 @@ class FlowGen:
         if r < 0.43:
             self.features.add('jinja-made-continuation')
             k = self.key()
+            if rng.random() < 0.5:
+                # the same inside a multi-line string: still one logical
+                # line once the template has been rendered
+                self.features.add('jinja-made-continuation-in-multiline')
+                self.markers.append('JCONTcJCONTd')
+                return [f'{k} = """x JCONTc{{{{ "\\\\" }}}}',
+                        'JCONTd y"""'], cur
             self.markers.append('JCONTaJCONTb')
             return [f'{k} = JCONTa{{{{ "\\\\" }}}}', 'JCONTb'], cur
         if r < 0.5:
